@@ -42,9 +42,11 @@ vars == <<nb, present, mods, last, nplaced, phase, spec, cfg, set, pt, out>>
 MIds == {"ha", "na", "hb", "lumi", "mu", "nf", "sf", "nt", "u", "st"}
 MOrd(m) == CASE m = "ha" -> 1 [] m = "na" -> 2 [] m = "hb" -> 3 [] m = "lumi" -> 4 [] m = "mu" -> 5
              [] m = "nf" -> 6 [] m = "sf" -> 7 [] m = "nt" -> 8 [] m = "u" -> 9 [] m = "st" -> 10
+\* shapesys names, like staterror names, run AGAINST the (channel, sample) order: cell (1, 1) carries u18, cell (3, 3) carries u10
+UName(c, s) == 18 - (3 * (c - 1) + (s - 1))
 MName(m, c, s) == CASE m \in {"ha", "na"} -> 1 [] m = "hb" -> 2 [] m = "lumi" -> 3 [] m = "mu" -> 4
                     [] m = "nf" -> 5 [] m = "sf" -> 6 [] m = "nt" -> 7
-                    [] m = "u" -> 10 + 3 * (c - 1) + (s - 1)
+                    [] m = "u" -> UName(c, s)
                     \* staterror names run AGAINST the channel order (channel 1 carries v_stat_3): nothing may rely on the two orders agreeing
                     [] m = "st" -> 24 - c
 MType(m) == CASE m \in {"ha", "hb"} -> HISTOSYS [] m \in {"na", "nt"} -> NORMSYS [] m = "lumi" -> LUMI
@@ -87,6 +89,11 @@ OverridePars(o, has(_)) ==      \* has(n): parameter name n occurs in the specif
     [] o = 2 -> (IF has(1) THEN <<[NoCfg(1) EXCEPT !.auxdata = <<RN(1, 2)>>]>> ELSE <<>>)
              \o (IF has(7) THEN <<[NoCfg(7) EXCEPT !.bounds = << <<R(-3), R(3)>> >>, !.inits = <<R(-1)>>]>> ELSE <<>>)
              \o (IF has(5) THEN <<[NoCfg(5) EXCEPT !.fixed = <<TRUE>>, !.inits = <<RN(3, 2)>>]>> ELSE <<>>)
+             \* an explicit fixed = FALSE (the one setting that is legitimately falsy) on bin-wise parameters that have a dead bin,
+             \* i.e. a component fixed by default: the staterror of channel 2 and the shapesys of the cells (1, 2) and (2, 2)
+             \o (IF has(22) THEN <<[NoCfg(22) EXCEPT !.fixed = <<FALSE>>]>> ELSE <<>>)
+             \o (IF has(UName(1, 2)) THEN <<[NoCfg(UName(1, 2)) EXCEPT !.fixed = <<FALSE>>]>> ELSE <<>>)
+             \o (IF has(UName(2, 2)) THEN <<[NoCfg(UName(2, 2)) EXCEPT !.fixed = <<FALSE>>]>> ELSE <<>>)
 MkSpec(nbv, pres, md) ==
   LET cs == SortSet({c \in 1..MaxChan : nbv[c] > 0})
       AnyLumi == \E cell \in pres : "lumi" \in md[cell]
